@@ -271,3 +271,167 @@ Section FlushProofs.
     eapply freach_step; [apply freach_refl|]. unfold fstep, fsuccs. rewrite E. now left.
   Qed.
 End FlushProofs.
+
+(* ------------------------------------------------------------------------------------------------------------ *)
+#[local] Arguments run_items {item st}.
+#[local] Arguments run {item st}.
+#[local] Arguments svstep {item st}.
+#[local] Arguments svfin {item st}.
+#[local] Arguments sv_batch {item st}.
+#[local] Arguments to_dverb {item st}.
+#[local] Arguments dchain {item st}.
+#[local] Arguments fully_streaming {item st}.
+#[local] Arguments chain_out {item st}.
+#[local] Arguments singletons {item}.
+#[local] Arguments noeos {item}.
+
+Section StreamingProofs.
+  Variables item st : Type.
+  Notation sverb := (sverb item st).
+  Notation batch := (batch item).
+
+  Lemma items_singletons (l : list item) : items (singletons l) = l.
+  Proof. unfold items, singletons. induction l as [|r l IH]; cbn; [reflexivity|]. now f_equal. Qed.
+
+  Lemma noeos_singletons (l : list item) : noeos (singletons l) = true.
+  Proof. unfold noeos, singletons. induction l as [|r l IH]; cbn; auto. Qed.
+
+  Lemma noeos_app (a b : list batch) : noeos (a ++ b) = noeos a && noeos b.
+  Proof. unfold noeos. apply forallb_app. Qed.
+
+  (* while the pipe is open a verb's output batches carry exactly what its per-record steps emit *)
+  Lemma run_verb_noeos (v : sverb) : forall (bs : list batch) (x : st),
+    noeos bs = true ->
+    noeos (run_verb (sv_batch v) x bs) = true /\
+    items (run_verb (sv_batch v) x bs) = snd (run_items (svstep v) x (items bs)).
+  Proof.
+    induction bs as [|[l e] t IH]; intros x H; [split; reflexivity|].
+    unfold noeos in H. cbn [forallb snd] in H. apply andb_prop in H as [He Ht]. destruct e; [discriminate|].
+    cbn [run_verb]. unfold sv_batch at 1 3. cbn [fst snd].
+    change (items ((l, false) :: t)) with (l ++ items t).
+    rewrite (run_items_app item st (svstep v) x l (items t)).
+    destruct (run_items (svstep v) x l) as [x1 o1].
+    destruct (IH x1 Ht) as [N I].
+    destruct (run_items (svstep v) x1 (items t)) as [x2 o2]. cbn [snd] in *. split.
+    - unfold noeos in *. cbn [forallb snd negb andb]. exact N.
+    - change (items ((o1 ++ [], false) :: run_verb (sv_batch v) x1 t))
+        with ((o1 ++ []) ++ items (run_verb (sv_batch v) x1 t)).
+      now rewrite I, app_nil_r.
+  Qed.
+
+  Lemma streaming_run (v : sverb) x0 l :
+    fully_streaming v x0 -> run (svstep v) (svfin v) x0 l = snd (run_items (svstep v) x0 l).
+  Proof.
+    intros H. unfold run. specialize (H l). destruct (run_items (svstep v) x0 l) as [s o]. cbn in *.
+    now rewrite H, app_nil_r.
+  Qed.
+
+  Definition all_streaming (c : list (sverb * st)) : Prop := Forall (fun p => fully_streaming (fst p) (snd p)) c.
+
+  (* for a chain of fully streaming verbs, what the open pipeline produces from the batches delivered so far is the
+     COMPLETE output of the chain on the records delivered so far (as if the input had ended there) *)
+  Theorem streaming_chain_visible (c : list (sverb * st)) :
+    all_streaming c -> forall bs : list batch, noeos bs = true ->
+    items (seq_chain (dchain c) bs) = chain_out c (items bs).
+  Proof.
+    induction c as [|[v x0] c IH]; intros F bs N; [reflexivity|].
+    inversion F as [|p c' Hv Hc]; subst. cbn [fst snd] in Hv.
+    destruct (run_verb_noeos v bs x0 N) as [N' I].
+    change (items (seq_chain (dchain c) (run_verb (sv_batch v) x0 bs)) = chain_out c (run (svstep v) (svfin v) x0 (items bs))).
+    rewrite (IH Hc _ N'), I. now rewrite (streaming_run v x0 _ Hv).
+  Qed.
+
+  (* THE CONTRACT, in the words of the property: --fflush, --records-per-batch 1 (each record its own batch), a
+     chain of fully streaming verbs; whenever the records [delivered] have arrived, whatever arrives later
+     ([pending], not yet visible to the reader), and the pipeline has come to rest, stdout already shows the
+     complete output of the chain for the delivered records *)
+  Theorem streaming_tail_f (c : list (sverb * st)) (delivered : list item) (pending : list batch)
+          (s : fstate item st) :
+    all_streaming c ->
+    freach true (finit (dchain c) (singletons delivered ++ pending)) s ->
+    rrem (fd s) = pending -> fquiet s = true ->
+    flushed s = chain_out c delivered.
+  Proof.
+    intros F Hr Hrem Hq. destruct (tail_f_contract item st _ _ _ _ Hr Hrem Hq) as [H _].
+    rewrite H, (streaming_chain_visible c F _ (noeos_singletons delivered)). now rewrite items_singletons.
+  Qed.
+
+  (* ... record by record: after the i-th record of ANY input has been delivered *)
+  Corollary streaming_tail_f_each_record (c : list (sverb * st)) (records : list item) (i : nat) (s : fstate item st) :
+    all_streaming c ->
+    freach true (finit (dchain c) (singletons records)) s ->
+    rrem (fd s) = singletons (skipn i records) -> fquiet s = true ->
+    flushed s = chain_out c (firstn i records).
+  Proof.
+    intros F Hr Hrem Hq. eapply streaming_tail_f; eauto.
+    unfold singletons in *. now rewrite <- map_app, firstn_skipn.
+  Qed.
+
+  (* ---- instances: every verb that never has anything to say at end of stream *)
+  Lemma fin_nil_streaming (v : sverb) x0 : (forall x, svfin v x = []) -> fully_streaming v x0.
+  Proof. intros H l. apply H. Qed.
+
+  Lemma cat_streaming x0 : fully_streaming (v_cat item st) x0.
+  Proof. now apply fin_nil_streaming. Qed.
+  Lemma map_streaming g upd x0 : fully_streaming (v_map item st g upd) x0.
+  Proof. now apply fin_nil_streaming. Qed.
+  Lemma filter_streaming p upd x0 : fully_streaming (v_filter item st p upd) x0.
+  Proof. now apply fin_nil_streaming. Qed.
+  Lemma flatmap_streaming g upd x0 : fully_streaming (v_flatmap item st g upd) x0.
+  Proof. now apply fin_nil_streaming. Qed.
+  Lemma tee_streaming log x0 : fully_streaming (v_tee item st log) x0.
+  Proof. now apply fin_nil_streaming. Qed.
+End StreamingProofs.
+
+Lemma head_streaming item k c0 : fully_streaming (v_head item k) c0.
+Proof. now apply fin_nil_streaming. Qed.
+
+(* a retaining verb is not fully streaming: tac, and step -a shift_lead (one record of look-ahead) *)
+Lemma tac_not_streaming : ~ fully_streaming (v_tac nat) [].
+Proof. intros H. specialize (H [7]). discriminate H. Qed.
+Lemma lead_not_streaming : ~ fully_streaming (v_lead nat (fun p _ => p)) None.
+Proof. intros H. specialize (H [7]). discriminate H. Qed.
+
+(* ---- both hypotheses are needed ---- *)
+(* without --fflush: cat, one record delivered, pipeline at rest, and stdout shows nothing (the record sits in the
+   bufio.Writer) *)
+Theorem no_fflush_refuted :
+  exists s : fstate nat nat,
+    freach false (finit (dchain [(v_cat nat nat, 0)]) (singletons [7] ++ [])) s /\
+    rrem (fd s) = [] /\ fquiet s = true /\ flushed s = [] /\ buffered s = [7]
+    /\ chain_out [(v_cat nat nat, 0)] [7] = [7].
+Proof.
+  destruct (frun false [0;0;0;0;0] (finit (dchain [(v_cat nat nat, 0)]) (singletons [7] ++ []))) as [s|] eqn:E;
+    [|vm_compute in E; discriminate].
+  exists s. split; [eapply frun_reach; exact E|]. vm_compute in E. inversion E; subst. vm_compute. auto.
+Qed.
+
+(* with --fflush but a retaining verb (tac): one record delivered, pipeline at rest, stdout shows nothing although
+   the chain's complete output for that record is the record *)
+Theorem retaining_verb_refuted :
+  exists s : fstate nat (list nat),
+    freach true (finit (dchain [(v_tac nat, [])]) (singletons [7] ++ [])) s /\
+    rrem (fd s) = [] /\ fquiet s = true /\ flushed s = [] /\ chain_out [(v_tac nat, [])] [7] = [7].
+Proof.
+  destruct (frun true [0;0;0;0;0] (finit (dchain [(v_tac nat, [])]) (singletons [7] ++ []))) as [s|] eqn:E;
+    [|vm_compute in E; discriminate].
+  exists s. split; [eapply frun_reach; exact E|]. vm_compute in E. inversion E; subst. vm_compute. auto.
+Qed.
+
+(* ---- non-vacuity: the hypotheses of tail_f_contract / streaming_tail_f hold in a non-trivial run:
+   cat then head -n 2, three records of which two have been delivered; both are on stdout *)
+Example tail_f_nonvacuous :
+  let c := [(v_cat nat nat, 0); (v_head nat 2, 0)] in
+  all_streaming nat nat c /\
+  exists s : fstate nat nat,
+    freach true (finit (dchain c) (singletons [5; 6] ++ singletons [7])) s /\
+    rrem (fd s) = singletons [7] /\ fquiet s = true /\ flushed s = [5; 6] /\ chain_out c [5; 6] = [5; 6].
+Proof.
+  cbv zeta. split.
+  - apply Forall_cons; [apply cat_streaming|]. apply Forall_cons; [apply head_streaming|]. apply Forall_nil.
+  - set (s0 := finit (dchain [(v_cat nat nat, 0); (v_head nat 2, 0)]) (singletons [5; 6] ++ singletons [7])).
+    exists (settle true 40 (deliver (settle true 40 (deliver s0)))). split.
+    + eapply freach_trans; [apply deliver_reach|]. eapply freach_trans; [apply settle_reach|].
+      eapply freach_trans; [apply deliver_reach|]. apply settle_reach.
+    + vm_compute. auto.
+Qed.
